@@ -588,11 +588,18 @@ def subseq(stmts, texts):
 
 def cond_holds(conds, text, value=True):
     """Among guarding conditions [(if-node, test, polarity)] (or [(test, polarity)]): is the expression
-    `text` known to be `value`?  `not E` under polarity p counts as E under (not p)."""
-    for c in conds:
-        t, pol = c[-2], c[-1]
+    `text` known to be `value`?  `not E` under polarity p counts as E under (not p); a true conjunction makes each
+    conjunct true, a false disjunction makes each disjunct false."""
+    def facts(t, pol):
         while isinstance(t, ast.UnaryOp) and isinstance(t.op, ast.Not):
             t, pol = t.operand, not pol
-        if unparse(t, 400) == text and pol == value:
-            return True
+        yield t, pol
+        if isinstance(t, ast.BoolOp) and ((isinstance(t.op, ast.And) and pol) or (isinstance(t.op, ast.Or) and not pol)):
+            for v in t.values:
+                for f in facts(v, pol):
+                    yield f
+    for c in conds:
+        for t, pol in facts(c[-2], c[-1]):
+            if unparse(t, 400) == text and pol == value:
+                return True
     return False
